@@ -41,8 +41,9 @@ Definition relax_vals (mc scb : Z) : list (cty * Z) := [(I32, mc + scb)].
 
 (* the guarantee of costsFromIntegers cpp:153-174 on its integer results: conversionFactor_ = INT_MAX / maxVal / 4 /
    nbSinks, costs_[i][j] = round(cost * conversionFactor_) with 0 <= cost <= maxVal, so 4 * nbSinks * costs_[i][j] is
-   at most INT_MAX + 2 * nbSinks (the rounding adds at most 1/2).  The float side (maxVal > 0 finite, costs finite and
-   non-negative) is a precondition stated here, not verified. *)
+   at most INT_MAX + 2 * nbSinks (the rounding adds at most 1/2).  The float side is modelled in CostsFloat.v (binary32 /
+   binary64, Flocq) and PROVED in CostsFloatProofs.v: float_problem_cost_dom establishes cost_dom for every rectangular
+   matrix of finite non-negative binary32 costs with 1 <= nbSinks < 2^30 (Properties_C07.c07_float_problem_cost_dom). *)
 Definition cost_dom (pb : Pb) : Prop :=
   (0 < nsnk pb)%nat /\ Z.of_nat (nsnk pb) < 1073741824 /\
   forall j i, 0 <= cost pb j i /\ 4 * Z.of_nat (nsnk pb) * cost pb j i <= 2147483647 + 2 * Z.of_nat (nsnk pb).
